@@ -718,15 +718,20 @@ func differential(chain []*builtBlock, t int, dd []*dump) ([]diffEntry, *inst, e
 
 func reportDiffs(c *ctx, chain []*builtBlock, t int, diffs []diffEntry, where string, caseInfo map[string]interface{}, dd []*dump) {
 	// attribute: the smallest rollback that already shows the difference class
+	// (a producer field is the same field whichever producer map the producer sits in at the rollback target:
+	// classes are matched with the map name left out, the key names the class seen at the smallest rollback)
 	byClass := map[string]diffEntry{}
+	var order []string
 	for _, d := range diffs {
-		cl := fieldClass(d.Path)
+		cl := normClass(fieldClass(d.Path))
 		if _, ok := byClass[cl]; !ok {
 			byClass[cl] = d
+			order = append(order, cl)
 		}
 	}
 	n := len(chain)
-	for cl, d := range byClass {
+	for _, ncl := range order {
+		d := byClass[ncl]
 		blamed := n // height of the blamed block
 		for tt := n - 1; tt >= t; tt-- {
 			ds, ai, err := differential(chain, tt, dd)
@@ -736,7 +741,7 @@ func reportDiffs(c *ctx, chain []*builtBlock, t int, diffs []diffEntry, where st
 			ai.free()
 			found := false
 			for _, x := range ds {
-				if fieldClass(x.Path) == cl {
+				if normClass(fieldClass(x.Path)) == ncl {
 					found = true
 					d = x
 					break
@@ -747,6 +752,7 @@ func reportDiffs(c *ctx, chain []*builtBlock, t int, diffs []diffEntry, where st
 				break
 			}
 		}
+		cl := fieldClass(d.Path)
 		kinds := blame(chain[blamed-1].items, d.Path)
 		cacheKey := cl + "|" + kinds
 		if k, ok := c.attrCache[cacheKey]; ok {
@@ -772,7 +778,7 @@ func reportDiffs(c *ctx, chain []*builtBlock, t int, diffs []diffEntry, where st
 				ai.free()
 				hit := false
 				for _, x := range ds {
-					if fieldClass(x.Path) == cl {
+					if normClass(fieldClass(x.Path)) == ncl {
 						hit = true
 					}
 				}
@@ -791,6 +797,19 @@ func reportDiffs(c *ctx, chain []*builtBlock, t int, diffs []diffEntry, where st
 			"(difference appears as soon as block %d = [%s] is rolled back)", where, t, n, d.Path, d.A, t, d.B, blamed, kindsOf(chain[blamed-1].items)),
 			caseInfo)
 	}
+}
+
+var producerMaps = []string{"ActivityProducers", "InactiveProducers", "IllegalProducers", "CanceledProducers",
+	"PendingCanceledProducers", "PendingProducers"}
+
+// normClass leaves the name of the producer map out of a field class.
+func normClass(cl string) string {
+	for _, m := range producerMaps {
+		if i := strings.Index(cl, "."+m+"["); i >= 0 {
+			return cl[:i] + ".*Producers" + cl[i+1+len(m):]
+		}
+	}
+	return cl
 }
 
 func replayOne(c *ctx, idx int) bool {
